@@ -171,6 +171,72 @@ def register(op):
         objs = [[i, show(k)] for i, k in enumerate(known)]
         return [outs, o, runs, objs]
 
+    @op("cx_split_runs")
+    def _(a):
+        """complexes made beforehand, the complex to split, then any number of runs of split(): each run is
+        [limit, set_id(, how)] - ComplexS.ID is assigned first when set_id is given, the generator is advanced at most
+        `limit` times (None: until it ends) and then abandoned (how = 'close' (default): closed; 'del': released and
+        collected; 'keep': stays suspended until the end).  Every object that ever appears is held until the end."""
+        from valfmt import Err
+        pre, me, runs = a
+        fresh()
+        names = [n for item in pre + [me] for n in item[0]]
+        _, keep = domains(names)
+        known, suspended = [], []
+
+        def num(o):
+            for i, k in enumerate(known):
+                if k is o:
+                    return i
+            known.append(o)
+            return len(known) - 1
+
+        def make(item):
+            seq, sst, nm = item
+            dseq = [n if n == "+" else keep[n] for n in seq]
+            try:
+                o = bc.ComplexS(dseq, list(sst)) if nm is None else bc.ComplexS(dseq, list(sst), nm)
+            except Exception as e:
+                ex = getattr(e, "existing", None)
+                if ex is not None:
+                    num(ex)
+                return Err(type(e).__name__)
+            return num(o)
+
+        def run(c, lim, sid, how):
+            if sid is not None:
+                bc.ComplexS.ID = sid
+            ys, err = [], None
+            g = c.split()
+            while lim is None or len(ys) < lim:
+                try:
+                    ys.append(num(next(g)))
+                except StopIteration:
+                    break
+                except Exception as e:
+                    err = Err(type(e).__name__)
+                    break
+            if how == "keep":
+                suspended.append(g)
+            elif how == "del":
+                del g
+                gc.collect()
+            else:
+                g.close()
+            return [ys, err]
+
+        outs = [make(item) for item in pre]
+        o = make(me)
+        if isinstance(o, Err):
+            res = None
+        else:
+            c = known[o]
+            res = [run(c, r[0], r[1], r[2] if len(r) > 2 else "close") for r in runs]
+        objs = [[i, show(k)] for i, k in enumerate(known)]
+        for g in suspended:
+            g.close()
+        return [outs, o, res, objs]
+
     @op("cx_split_hist_check")
     def _(a):
         """direct statement of the object-level clause on a history: after the complexes made beforehand, the complex
@@ -180,7 +246,8 @@ def register(op):
         import os, sys
         sys.path.insert(0, os.path.dirname(os.path.dirname(os.path.abspath(__file__))))
         import gen_pil, loops_common as lc
-        pre, me = a
+        pre, me = a[0], a[1]
+        runs = a[2] if len(a) > 2 else []
         fresh()
         names = [n for item in pre + [me] for n in item[0]]
         _, keep = domains(names)
@@ -197,18 +264,39 @@ def register(op):
                     return []
         c = held[-1]
         bad = []
+        def canon(o):
+            return gen_pil.canon([str(x) for x in o.sequence], list(o.structure))
+        s = "".join(me[1])
+        want = sorted(repr(gen_pil.canon(*lc.component_complex(me[0], s, ids, 0))) for ids in lc.components(s))
+        # earlier runs of split() on the same object (generator advanced a bounded number of times and abandoned,
+        # ComplexS.ID assigned in between): a run that is consumed to its end without an exception yields the components
+        for k, r in enumerate(runs):
+            lim, sid = r[0], r[1]
+            if sid is not None:
+                bc.ComplexS.ID = sid
+            g, ys, ended = c.split(), [], False
+            try:
+                while lim is None or len(ys) < lim:
+                    try:
+                        ys.append(next(g))
+                    except StopIteration:
+                        ended = True
+                        break
+            except Exception as e:
+                pass
+            g.close()
+            held += ys
+            if ended and sorted(repr(canon(p)) for p in ys) != want:
+                bad.append(f"run {k} of split() yielded {[(list(map(str, p.sequence)), ''.join(p.structure)) for p in ys]}, not the connected components")
         try:
             parts = list(c.split())
         except Exception as e:
             parts = None
-        def canon(o):
-            return gen_pil.canon([str(x) for x in o.sequence], list(o.structure))
         if parts is not None:
-            s = "".join(me[1])
-            want = sorted(repr(gen_pil.canon(*lc.component_complex(me[0], s, ids, 0))) for ids in lc.components(s))
             got = sorted(repr(canon(p)) for p in parts)
             if got != want:
-                bad.append(f"split() yielded {[(list(map(str, p.sequence)), ''.join(p.structure)) for p in parts]}, not the connected components")
+                bad.append(f"split() yielded {[(list(map(str, p.sequence)), ''.join(p.structure)) for p in parts]}, not the connected components"
+                           + (f" (after the earlier runs {runs!r} of split() on the same object)" if runs else ""))
             held += parts
         live = []
         for o in held:
